@@ -7,7 +7,8 @@
      days_of            day number (Hinnant), 1970-01-01 = 0;  monday_of c = day number of the Monday of c's week
      period_of k c      Week/Month/Quarter/Year{c}.Period()    previous_period k c = X{c}.Previous().Period()
      period_edge, previous_edge   the dates whose (previous) period reaches outside 0000..9999: there the Go code
-                                  panics (findings K4, F8); the theorems below exclude exactly those and prove the panic *)
+                                  panics (finding K4); the theorems below exclude exactly those and prove the panic.
+   Period PATTERNS never panic (finding F8, fixed in /repo by 9e99f6b): C15_pattern_total. *)
 From Klog Require Import Base.Prelude Model.Calendar Model.Period Proofs.Calendar Proofs.Period Proofs.PeriodPattern.
 Open Scope Z_scope.
 
@@ -152,25 +153,24 @@ Theorem C15_pattern_spec : forall s since until,
 Proof. exact pattern_spec. Qed.
 Print Assumptions C15_pattern_spec.
 
-(* everything else is rejected with an error — except the week patterns of year 9999 from W52 on *)
+(* everything else is rejected with an error *)
 Theorem C15_pattern_reject : forall s,
-  (forall since until, ~ names_period s since until) -> ~ (exists w, week_str s 9999 w /\ 52 <= w) ->
-  period_from_pattern s = Err EInvalidPeriod.
+  (forall since until, ~ names_period s since until) -> period_from_pattern s = Err EInvalidPeriod.
 Proof. exact pattern_reject. Qed.
 Print Assumptions C15_pattern_reject.
 
-(* those, and only those, make NewPeriodFromPatternString panic (F8) *)
-Theorem C15_pattern_crash_iff : forall s,
-  (exists k, period_from_pattern s = Crash k) <-> (exists w, week_str s 9999 w /\ 52 <= w).
-Proof. exact pattern_crash_iff. Qed.
-Print Assumptions C15_pattern_crash_iff.
+(* parsing a pattern is total: NewPeriodFromPatternString never panics, whatever the string
+   (true since the fix 9e99f6b of finding F8; before it 9999-W52 .. 9999-W99 panicked) *)
+Theorem C15_pattern_total : forall s k, period_from_pattern s <> Crash k.
+Proof. exact pattern_total. Qed.
+Print Assumptions C15_pattern_total.
 
-(* the unguarded statement "every string is accepted or rejected" is false of the code *)
-Theorem C15_pattern_total_refuted :
-  period_from_pattern b!"9999-W52" = Crash CUnrepresentableDate /\
-  period_from_pattern b!"9999-W53" = Crash CUnrepresentableDate.
-Proof. split; vm_compute; reflexivity. Qed.
-Print Assumptions C15_pattern_total_refuted.
+(* in particular the week patterns of year 9999 from W52 on — W52 would end on 10000-01-02, W53.. do not exist —
+   are rejected *)
+Theorem C15_pattern_9999_rejected : forall s w, week_str s 9999 w -> 52 <= w ->
+  period_from_pattern s = Err EInvalidPeriod.
+Proof. exact pattern_9999_rejected. Qed.
+Print Assumptions C15_pattern_9999_rejected.
 
 (* ------------------------------------------------------------------ non-vacuity and the cases named in the property *)
 
@@ -201,6 +201,8 @@ Example C15_nonexistent_periods_rejected :
   period_from_pattern b!"2021-Q0" = Err EInvalidPeriod /\ period_from_pattern b!"2021-Q5" = Err EInvalidPeriod /\
   period_from_pattern b!"2021-W00" = Err EInvalidPeriod /\ period_from_pattern b!"2021-W0" = Err EInvalidPeriod /\
   period_from_pattern b!"2021-W53" = Err EInvalidPeriod /\ period_from_pattern b!"2020-W54" = Err EInvalidPeriod /\
+  period_from_pattern b!"9999-W52" = Err EInvalidPeriod /\ period_from_pattern b!"9999-W53" = Err EInvalidPeriod /\
+  period_from_pattern b!"9999-W99" = Err EInvalidPeriod /\
   (forall since until, ~ names_period b!"2021-W53" since until).
 Proof.
   assert (N : forall since until, ~ names_period b!"2021-W53" since until).
